@@ -342,15 +342,8 @@ func (g *gen) inject(pos token.Pos, name string, sig *types.Signature, set *Prov
 	// The signature is written out from the types the checker reports, with
 	// aliases already replaced by what they stand for; what it then mentions
 	// must be something this package can name.
-	for i := 0; i < params.Len(); i++ {
-		if err := writableFrom(params.At(i).Type(), g.pkg.Types); err != nil {
-			return []error{notePosition(g.pkg.Fset.Position(pos),
-				fmt.Errorf("inject %s: type of parameter %d, %s, cannot be written in package %s: %v", name, i+1, types.TypeString(params.At(i).Type(), nil), g.pkg.PkgPath, err))}
-		}
-	}
-	if err := writableFrom(injectSig.out, g.pkg.Types); err != nil {
-		return []error{notePosition(g.pkg.Fset.Position(pos),
-			fmt.Errorf("inject %s: result type %s cannot be written in package %s: %v", name, types.TypeString(injectSig.out, nil), g.pkg.PkgPath, err))}
+	if err := signatureWritableFrom(params, injectSig.out, g.pkg.Types); err != nil {
+		return []error{notePosition(g.pkg.Fset.Position(pos), fmt.Errorf("inject %s: %v", name, err))}
 	}
 	calls, errs := solve(g.pkg.Fset, injectSig.out, params, set)
 	if len(errs) > 0 {
@@ -1166,6 +1159,20 @@ func implicitUnexportedField(info *types.Info, lit *ast.CompositeLit, wantPkg st
 		if f := st.Field(i); !f.Exported() && f.Pkg() != nil && f.Pkg().Path() != wantPkg {
 			return f
 		}
+	}
+	return nil
+}
+
+// signatureWritableFrom reports the first parameter or result type of an
+// injector that cannot be written in package from.
+func signatureWritableFrom(params *types.Tuple, out types.Type, from *types.Package) error {
+	for i := 0; i < params.Len(); i++ {
+		if err := writableFrom(params.At(i).Type(), from); err != nil {
+			return fmt.Errorf("type of parameter %d, %s, cannot be written in package %s: %v", i+1, types.TypeString(params.At(i).Type(), nil), from.Path(), err)
+		}
+	}
+	if err := writableFrom(out, from); err != nil {
+		return fmt.Errorf("result type %s cannot be written in package %s: %v", types.TypeString(out, nil), from.Path(), err)
 	}
 	return nil
 }
